@@ -183,7 +183,7 @@ func cmdCheck(args []string) int {
 	}
 	seed, _ := strconv.Atoi(os.Getenv("VERIF_SEED"))
 	start := time.Now()
-	timeoutS := 10
+	timeoutS := 20
 	crossCheck := false
 	if *tier == "thorough" {
 		timeoutS = 60
